@@ -426,7 +426,17 @@ func (p *Program) parseLines(pk *packages.Package, file string, raw []rawLine) {
 				curLoop = nil
 			case "lit":
 				ord := strings.TrimSuffix(strings.TrimSpace(rest), ":")
-				lc := &FuncContract{Pkg: root.Pkg, File: root.File, Name: root.Name + "$lit" + ord, Loops: map[string]*LoopSpec{}, FnParams: map[string]*FnParamSpec{}, Opts: map[string]string{}, Lits: map[string]*FuncContract{}}
+				var litResults []string
+				if i := strings.Index(ord, "("); i >= 0 {
+					// lit N (r, err): names for the literal's results
+					for _, n := range strings.Split(strings.Trim(strings.TrimSpace(ord[i:]), "()"), ",") {
+						if n = strings.TrimSpace(n); n != "" {
+							litResults = append(litResults, n)
+						}
+					}
+					ord = strings.TrimSpace(ord[:i])
+				}
+				lc := &FuncContract{Results: litResults, Pkg: root.Pkg, File: root.File, Name: root.Name + "$lit" + ord, Loops: map[string]*LoopSpec{}, FnParams: map[string]*FnParamSpec{}, Opts: map[string]string{}, Lits: map[string]*FuncContract{}}
 				root.Lits[ord] = lc
 				cur = lc
 				curLoop, curFn = nil, nil
